@@ -61,16 +61,33 @@ fn to_builder_value(v: &JsonValue) -> JsonbBuilderValue {
         JsonValue::Object(o) => JsonbBuilderValue::Object(o.iter().map(|(k, e)| (k.clone(), to_builder_value(e))).collect()),
     }
 }
-/// the second encoder of the code base, driven the way database/convert.rs drives it
-fn build_with_builder(v: &JsonValue) -> Vec<u8> {
+/// the builder of records/jsonb.rs, driven the way database/convert.rs drives it
+fn make_builder(v: &JsonValue) -> JsonbBuilder {
     match v {
-        JsonValue::Null => JsonbBuilder::new_null().build(),
-        JsonValue::Bool(b) => JsonbBuilder::new_bool(*b).build(),
-        JsonValue::Number(n) => JsonbBuilder::new_number(*n).build(),
-        JsonValue::String(s) => JsonbBuilder::new_string(s.clone()).build(),
-        JsonValue::Array(a) => { let mut b = JsonbBuilder::new_array(); for e in a { b.push(to_builder_value(e)); } b.build() }
-        JsonValue::Object(o) => { let mut b = JsonbBuilder::new_object(); for (k, e) in o { b.set(k.clone(), to_builder_value(e)); } b.build() }
+        JsonValue::Null => JsonbBuilder::new_null(),
+        JsonValue::Bool(b) => JsonbBuilder::new_bool(*b),
+        JsonValue::Number(n) => JsonbBuilder::new_number(*n),
+        JsonValue::String(s) => JsonbBuilder::new_string(s.clone()),
+        JsonValue::Array(a) => { let mut b = JsonbBuilder::new_array(); for e in a { b.push(to_builder_value(e)); } b }
+        JsonValue::Object(o) => { let mut b = JsonbBuilder::new_object(); for (k, e) in o { b.set(k.clone(), to_builder_value(e)); } b }
     }
+}
+fn build_with_builder(v: &JsonValue) -> Vec<u8> { make_builder(v).build() }
+/// JsonbBuilder::try_build, the checked entry point the SQL conversion path uses
+fn try_build_with_builder(v: &JsonValue) -> Caught<Option<Vec<u8>>> {
+    let v = v.clone();
+    catch(move || make_builder(&v).try_build().ok())
+}
+fn beyond_format(t: &T, bytes: &[u8]) -> bool {
+    fn long(t: &T, nested: bool) -> bool {
+        match t {
+            T::Str(s) => if nested { s.len() >= 1 << 16 } else { s.len() >= 1 << 28 },
+            T::Arr(a) => a.iter().any(|e| long(e, true)),
+            T::Obj(o) => o.iter().any(|(k, e)| k.len() >= 1 << 16 || long(e, true)),
+            _ => false,
+        }
+    }
+    long(t, false) || (!matches!(t, T::Str(_)) && bytes.len() > 1 << 24)
 }
 
 // ------------------------------------------------------------------ reading back through the view
@@ -356,8 +373,8 @@ fn run_case(text: &str, probe_cap: usize) -> Ran {
     let mut spec_fail = false;
     let mut parsed_tree: Option<T> = None;
     let (pterm, rest, nontrivial) = match parsed {
-        Caught::Panicked(_) => { if want.is_some() { spec_fail = true; } ("PPanic".to_string(), "(B 0 []) true RNone []".to_string(), false) }
-        Caught::Done(None) => { if want.is_some() { spec_fail = true; } ("PErr".to_string(), "(B 0 []) true RNone []".to_string(), false) }
+        Caught::Panicked(_) => { if want.is_some() { spec_fail = true; } ("PPanic".to_string(), "(B 0 []) true TBErr RNone []".to_string(), false) }
+        Caught::Done(None) => { if want.is_some() { spec_fail = true; } ("PErr".to_string(), "(B 0 []) true TBErr RNone []".to_string(), false) }
         Caught::Done(Some((v, consumed))) => {
             let t = from_jv(&v);
             parsed_tree = Some(t.clone());
@@ -367,6 +384,11 @@ fn run_case(text: &str, probe_cap: usize) -> Ran {
             let v3 = v.clone();
             let same = matches!(catch(move || build_with_builder(&v3)), Caught::Done(b) if b == bytes);
             if !same { spec_fail = true; }
+            let tb = match try_build_with_builder(&v) {
+                Caught::Done(Some(b)) => format!("(TBOk {})", cbool(b == bytes)),
+                Caught::Done(None) => "TBErr".to_string(),
+                Caught::Panicked(_) => "TBPanic".to_string(),
+            };
             let back = rres_tree(&bytes);
             let mut probes = vec![];
             for steps in plan_probes(&t, probe_cap) {
@@ -384,7 +406,7 @@ fn run_case(text: &str, probe_cap: usize) -> Ran {
             }
             let nontrivial = t_nodes(&t) >= 4;
             (format!("(POk {} {})", t_term(&t), consumed),
-             format!("{} {} {} {}", hb(&bytes), cbool(same), back, clist(&probes)), nontrivial)
+             format!("{} {} {} {} {}", hb(&bytes), cbool(same), tb, back, clist(&probes)), nontrivial)
         }
     };
     let want_term = match (&want, &parsed_tree) {
@@ -453,7 +475,7 @@ fn ws(rng: &mut Rng, out: &mut String, on: bool) {
     if !on { return; }
     for _ in 0..rng.below(3) { out.push(*rng.pick(&[' ', ' ', '\n', '\t', '\r'])); }
 }
-/// `pairs`: allow \uD83D\uDE00-style escapes for characters outside the BMP (the implementation rejects them)
+/// `pairs`: allow \uD83D\uDE00-style escapes for characters outside the BMP
 fn print_string(rng: &mut Rng, s: &str, out: &mut String, esc: u64, pairs: bool) {
     out.push('"');
     for c in s.chars() {
@@ -594,8 +616,8 @@ fn gen(a: &Args) {
     }
     let n_valid = if thorough { 9_000 } else { 700 };
     for i in 0..n_valid {
-        // at most ~2% of the documents may use surrogate-pair escapes (recorded finding, class 2)
-        let pairs = rng.chance(1, 50);
+        // one document in four may spell characters outside the BMP as surrogate-pair escapes
+        let pairs = rng.chance(1, 4);
         let (depth, size) = match i % 10 { 0 => (0, 1), 1 | 2 => (2, 6), 3..=6 => (4, 12), 7 | 8 => (8, 24), _ => (8, 48) };
         let (text, intended) = gen_valid(&mut rng, depth, size, pairs);
         // the generator's tree and the independent reference reader must agree on what the text denotes
@@ -606,7 +628,8 @@ fn gen(a: &Args) {
     }
     let n_mut = if thorough { 3_000 } else { 250 };
     for _ in 0..n_mut {
-        let (text, _) = gen_valid(&mut rng, 3, 10, false);
+        let pairs = rng.chance(1, 4);
+        let (text, _) = gen_valid(&mut rng, 3, 10, pairs);
         let m = mutate(&mut rng, &text);
         let r = run_case(&m, 30);
         w.push(r.term, replay_of(&m), r.nontrivial, "mutated");
@@ -624,50 +647,17 @@ fn search(a: &Args) {
     let mut texts: Vec<String> = BOUNDARY.iter().chain(BOUNDARY2.iter()).map(|s| s.to_string()).collect();
     while (texts.len() as u64) < a.budget.min(400_000) {
         let (depth, size) = match texts.len() % 4 { 0 => (2, 8), 1 => (4, 20), 2 => (8, 40), _ => (8, 120) };
-        let (t, _) = gen_valid(&mut rng, depth, size, false);
+        let pairs = texts.len() % 3 == 0;
+        let (t, _) = gen_valid(&mut rng, depth, size, pairs);
         texts.push(t);
     }
     for t in &texts {
         tried += 1;
-        if !oracle_ok(t) && fails.len() < 20 { fails.push(format!("{}{}", replay_of(t), class_tag(t))); }
+        if !oracle_ok(t) && fails.len() < 20 { fails.push(replay_of(t)); }
     }
     let mut out = format!("tried={}\n", tried);
     for f in &fails { out.push_str("FAIL "); out.push_str(f); out.push('\n'); }
     std::fs::write(&a.out, out).expect("write search output");
-}
-
-/// the recorded defect classes, as tags on the replay lines of search mode (known_findings.d/C32.json matches them)
-fn has_pair_escape(text: &str) -> bool {
-    let s = text.as_bytes();
-    let hexv = |b: &[u8]| -> Option<u32> { let mut v = 0; for x in b { v = v * 16 + (*x as char).to_digit(16)?; } Some(v) };
-    let mut i = 0;
-    while i < s.len() {
-        if s[i] == b'\\' {
-            if i + 12 <= s.len() && s[i + 1] == b'u' && s[i + 6] == b'\\' && s[i + 7] == b'u' {
-                if let (Some(h), Some(l)) = (hexv(&s[i + 2..i + 6]), hexv(&s[i + 8..i + 12])) {
-                    if (0xD800..0xDC00).contains(&h) && (0xDC00..0xE000).contains(&l) { return true; }
-                }
-            }
-            i += 2;
-        } else { i += 1; }
-    }
-    false
-}
-fn has_long_nested(t: &T, nested: bool) -> bool {
-    match t {
-        T::Str(s) => nested && s.len() >= 65536,
-        T::Arr(a) => a.iter().any(|e| has_long_nested(e, true)),
-        T::Obj(o) => o.iter().any(|(k, e)| k.len() >= 65536 || has_long_nested(e, true)),
-        _ => false,
-    }
-}
-fn class_tag(text: &str) -> &'static str {
-    let txt = text.to_string();
-    match catch(move || parse_json(&txt).ok().map(|r| from_jv(&r.value))) {
-        Caught::Done(Some(t)) => if has_long_nested(&t, false) { " #long-nested-string" } else { "" },
-        Caught::Done(None) => if ref_parse(text).is_some() && has_pair_escape(text) { " #surrogate-pair-escape" } else { "" },
-        _ => "",
-    }
 }
 
 fn eqv(a: &T, b: &T) -> bool {
@@ -713,6 +703,11 @@ fn oracle_ok(text: &str) -> bool {
     let bytes = match catch(move || v2.to_jsonb_bytes()) { Caught::Done(b) => b, _ => return false };
     let v3 = v.clone();
     if !matches!(catch(move || build_with_builder(&v3)), Caught::Done(b) if b == bytes) { return false; }
+    match try_build_with_builder(&v) {
+        Caught::Done(Some(b)) => if b != bytes { return false; },
+        Caught::Done(None) => return beyond_format(&t, &bytes),   // a refusal must be justified by the format limits
+        Caught::Panicked(_) => return false,
+    }
     let d = bytes.clone();
     match catch(move || walk_bytes(&d)) { Caught::Done(Ok(b)) => if !eqv(&b, &t) { return false; }, _ => return false }
     for steps in plan_probes(&t, 200) {
